@@ -393,6 +393,24 @@ Proof.
       exfalso. fold k in E. rewrite E in G. apply (local_present _ cur v Hi Hc Hp). exact G.
 Qed.
 
+(* a rejection by recordVar that is not a type error is the name clash *)
+Lemma record_var_struct s cur v typ e :
+  inv (st_vars s) ->
+  record_var P s cur v typ = RErr e -> is_type_error e = false ->
+  is_func P v = true /\ kspecial (scope_key P cur v) = false /\ fst (scope_key P cur v) = [].
+Proof.
+  intros Hi H. unfold record_var in H. rewrite (lookup_spec _ cur v Hi) in H. cbv zeta in H.
+  set (k := scope_key P cur v) in *.
+  destruct (kspecial k) eqn:Ek.
+  - destruct typ; cbn [ty_eqb negb andb] in H; try discriminate. injection H as <-. cbn. discriminate.
+  - destruct (get (st_vars s) k) as [ity|] eqn:G.
+    + destruct (_ && _ && _); [injection H as <-; cbn; discriminate|].
+      destruct (_ && _); discriminate.
+    + destruct (is_func P v) eqn:Ef; [|discriminate]. intros _. split; [reflexivity|]. split; [reflexivity|].
+      unfold k. destruct (scope_key_cases cur v) as [[Hc [Hp E]]|[_ E]]; [|rewrite E; reflexivity].
+      exfalso. fold k in E. rewrite E in G. apply (local_present _ cur v Hi Hc Hp). exact G.
+Qed.
+
 Lemma record_var_no_panic s cur v typ : record_var P s cur v typ <> RPanic /\ record_var P s cur v typ <> RFuel.
 Proof.
   unfold record_var. destruct (lookup_var (st_vars s) cur v) as [[[sc ity] vf]|].
